@@ -61,10 +61,10 @@ func Assert(c bool, id string) {
 }
 func Reach(label string) {}
 
-func Track(root interface{})  {}
-func Begin(label string)      {}
-func End()                    {}
-func NoRace(a, b, id string)  {}
+func Track(root interface{}) {}
+func Begin(label string)     {}
+func End()                   {}
+func NoRace(a, b, id string) {}
 
 func Par(f, g func()) {
 	done := make(chan struct{}, 2)
